@@ -13,24 +13,31 @@ EXTENDS Naturals, Sequences, FiniteSets, TLC, Json
 
 \* dcsig: the end-entity key's signature over the delegated credential (RFC 9345); dccv: CertificateVerify made with the
 \* delegated key
-Sites == {"ske12", "cv12", "scv13", "ccv13", "phacv", "phafin", "fin", "srp", "binder", "checker", "dcsig", "dccv"}
-SigSites == {"ske12", "cv12", "scv13", "ccv13", "phacv", "dcsig", "dccv"}
+\* ske12srp: the signed ServerKeyExchange of the SRP_SHA_RSA suites (RFC 5054 2.5.1.3 / 2.6)
+Sites == {"ske12", "ske12srp", "cv12", "scv13", "ccv13", "phacv", "phafin", "fin", "srp", "binder", "checker", "dcsig", "dccv"}
+SigSites == {"ske12", "ske12srp", "cv12", "scv13", "ccv13", "phacv", "dcsig", "dccv"}
 \* "absent": an identity is demanded (Checker) but the peer presents none (anonymous suite / empty Certificate)
 \* "stale" : the peer presents a ticket naming an identity, makes no valid proof for it (garbage binder) and the
 \*           ticket is unusable with the negotiated suite: the handshake may fall back to a full one, but the
 \*           identity named by the ticket must not be attributed
-Classes == {"none", "bitflip", "empty", "trunc", "extend", "otherkey", "otherdata", "declother", "wrongsecret", "absent", "stale"}
+\* "degenerate": a public value that makes the shared secret independent of the secret to be proven (SRP A = k*N:
+\*           the server's premaster becomes 0 whatever the password verifier is); the prover derives its keys from
+\*           that forced value, so nothing but the verifier's own check stands in the way
+Classes == {"none", "bitflip", "empty", "trunc", "extend", "otherkey", "otherdata", "declother", "wrongsecret", "absent", "stale",
+            "degenerate"}
 KeyTypes == {"rsa", "ecdsa", "dsa", "ed25519", "rsapss", "p384", "p521", "ed448", "bp256", "-"}
 
 \* which (site, class, key type, version) combinations exist
 Meaningful(c) ==
   /\ (c.site \in SigSites => c.cls \in {"none", "bitflip", "empty", "trunc", "extend", "otherkey", "otherdata", "declother"})
   /\ (c.site \in SigSites => c.kt # "-")
-  /\ (c.site \notin SigSites => c.kt = "-" /\ c.cls \in {"none", "wrongsecret", "absent", "stale"})
+  /\ (c.site \notin SigSites => c.kt = "-" /\ c.cls \in {"none", "wrongsecret", "absent", "stale", "degenerate"})
+  /\ (c.cls = "degenerate" => c.site = "srp")
   /\ (c.cls = "absent" => c.site = "checker" /\ (c.role = "c" => c.ver = 3))
   /\ (c.cls = "stale" => c.site = "binder")
   /\ (c.site = "ske12" => c.ver \in 0..3 /\ c.kt \in {"rsa", "ecdsa", "dsa", "p384", "p521", "ed448"}
                           /\ (c.kt \in {"ecdsa", "p384", "p521"} => c.ver >= 1) /\ (c.kt = "ed448" => c.ver = 3))
+  /\ (c.site = "ske12srp" => c.ver \in 1..3 /\ c.kt = "rsa")
   /\ (c.site = "cv12" => c.ver \in 0..3 /\ c.kt \in {"rsa", "ecdsa", "dsa", "ed25519"}
                          /\ (c.kt = "ecdsa" => c.ver >= 1) /\ (c.kt = "ed25519" => c.ver = 3))
   /\ (c.site = "scv13" => c.ver = 4 /\ c.kt \in {"rsa", "ecdsa", "ed25519", "rsapss", "p384", "p521", "ed448", "bp256"})
@@ -49,7 +56,7 @@ Meaningful(c) ==
 Cases == {c \in [site : Sites, cls : Classes, kt : KeyTypes, ver : 0..4, role : {"c", "s"}] :
             /\ Meaningful(c)
             \* which endpoint verifies at this site
-            /\ (c.site \in {"ske12", "scv13", "dcsig", "dccv"} => c.role = "c")
+            /\ (c.site \in {"ske12", "ske12srp", "scv13", "dcsig", "dccv"} => c.role = "c")
             /\ (c.site \in {"cv12", "ccv13", "phacv", "phafin", "srp", "binder"} => c.role = "s")}
 
 ProofValid(c) == c.cls = "none"
